@@ -120,7 +120,7 @@ func (ex *executor) judgeDav(idx int, st *Step, xc *Exchange) {
 		if len(mutating) > 0 {
 			add("C13", "mutation-after-cut", fmt.Sprintf("malformed request (%s) reached the backend: %v", malformed, mutating))
 		}
-		ex.res.Stats.NonTrivial["C13|"+class+"|"+malformedClass(malformed, xc, st)]++
+		ex.res.Stats.NT("C13|" + class + "|" + malformedClass(malformed, xc, st))
 	}
 	if st.Method == "PUT" && !davPut && xc.BodyFailed && status < 400 {
 		add("C13", "cut-not-4xx", fmt.Sprintf("the upload stream failed at byte %d but the file server answered %d", xc.Delivered, status))
@@ -134,10 +134,10 @@ func (ex *executor) judgeDav(idx int, st *Step, xc *Exchange) {
 		} else {
 			ex.probe("backend-fault-answered-otherwise")
 		}
-		ex.res.Stats.NonTrivial["C13|"+class+"|backend-fault "+f.Op+" "+f.Kind]++
+		ex.res.Stats.NT("C13|" + class + "|backend-fault " + f.Op + " " + f.Kind)
 	}
 	for _, f := range ex.seam.Fired {
-		ex.res.Stats.NonTrivial["C13|"+class+"|disk-fault "+f.Op+" "+f.Kind]++
+		ex.res.Stats.NT("C13|" + class + "|disk-fault " + f.Op + " " + f.Kind)
 	}
 	// C04: conditional headers reach a CalDAV/CardDAV backend unaltered
 	if davPut && ex.bk != nil {
@@ -150,7 +150,7 @@ func (ex *executor) judgeDav(idx int, st *Step, xc *Exchange) {
 				add("C04", "passthrough-altered", fmt.Sprintf("PUT carried If-Match %q / If-None-Match %q; the backend received %q / %q", im, inm, c.IfMatch, c.IfNoneMatch))
 			}
 			if im != "" || inm != "" {
-				ex.res.Stats.NonTrivial["C04|passthrough "+cfg.Server+" "+im+"|"+inm]++
+				ex.res.Stats.NT("C04|passthrough " + cfg.Server + " " + im + "|" + inm)
 				ex.probe("conditional-passthrough-compared")
 			}
 		}
